@@ -9,11 +9,14 @@ import hashlib
 import json
 import os
 import random
+from concurrent.futures import ThreadPoolExecutor
 
 import pipeline as pl
 
 ALL_SEEDS = [int(x) for x in os.environ.get('VERIF_C19_SEEDS', '1,2,3,4,5,6,7,8').split(',')]   # development aid
 CODECS = ['ber', 'der', 'per', 'uper', 'oer', 'jer', 'xer', 'gser']
+MODEL_MUTANTS = ['InlineIgnoresAutomaticTagging', 'ExtractIgnoresAutomaticTagging',
+                 'InlineCopiesTextAcrossTagDefaults', 'InlineIntoAutomaticModule']
 
 
 def arrange_cfg(max_steps, emit_below, seeds, tds, invariants, max_mods=3, mutation='', view=True):
@@ -29,14 +32,21 @@ def aid_of(arr):
     return hashlib.sha1(json.dumps(arr, sort_keys=True).encode()).hexdigest()[:12]
 
 
-def read_edges(path, edges, seeds):
-    """Collect emitted transitions (dedup) and the seeds' value tables."""
+def read_edges(path, edges, seeds, stats):
+    """Collect emitted transitions (dedup) and the seeds' value tables.  Lines longer than one write
+    buffer can be torn when several TLC workers append at once: such lines are dropped and counted."""
     with open(path) as f:
         for line in f:
             line = line.strip()
             if not line:
                 continue
-            r = json.loads(line)
+            stats['lines'] += 1
+            try:
+                r = json.loads(line)
+                r['act']['a'], r['prev']['mods'], r['arr']['mods'], r['sched'], r['steps']
+            except (ValueError, KeyError, TypeError):
+                stats['torn'] += 1
+                continue
             if r['act']['a'] == 'Seed':
                 seeds.setdefault(r['seed'], {'venv': r['venv'], 'vals': r['vals']})
             pa, ca = aid_of(r['prev']), aid_of(r['arr'])
@@ -46,46 +56,103 @@ def read_edges(path, edges, seeds):
                               'paid': pa, 'aid': ca, 'prev': r['prev'], 'arr': r['arr']}
 
 
+def corrupted_trace(run, shard):
+    """Anti-vacuity: the first transition of a shard with one octet flipped in what the ber and der
+    encoders returned for one value; Trace_Arrange must reject both (STEP and DER checks)."""
+    lines = []
+    with open(shard) as f:
+        for line in f:
+            r = json.loads(line)
+            lines.append(r)
+            if r['kind'] == 'edge':
+                break
+    edge = lines[-1]
+    for l in lines:
+        l['cid'] = 'selftest-' + l['cid']
+    done = set()
+    for o in edge['obs']:
+        e = o.get('enc', {})
+        if o.get('way') == 's' and o['codec'] in ('ber', 'der') and o['codec'] not in done and e.get('st') == 'ok' and e['b']:
+            e['b'][-1] ^= 1
+            done.add(o['codec'])
+    path = run.path('trace.selftest.ndjson')
+    with open(path, 'w') as f:
+        for l in lines:
+            f.write(json.dumps(l) + '\n')
+    return path
+
+
 def c19(tier, seed):
     run = pl.Run('C19', tier, seed)
     try:
         if tier == 'dev':
             model = [(1, ALL_SEEDS, ['MeaningPreserved', 'ArrangementWellFormed'], 4)]
             emit_bfs = (1, ALL_SEEDS)
+            emit_workers = 1
             sim = ('num=2', 3)
             budget = 300
             files_codecs = ['ber']
         elif tier == 'quick':
-            model = [(2, ALL_SEEDS, ['MeaningPreserved', 'ArrangementWellFormed'], 8),
-                     (1, ALL_SEEDS, ['MeaningPreservedStep', 'EncodingPreserved'], 8)]
+            model = [(2, ALL_SEEDS, ['MeaningPreserved', 'ArrangementWellFormed'], 8)]
             emit_bfs = (1, ALL_SEEDS)          # all transitions one step from every seed
+            emit_workers = 1
             sim = ('num=10', 5)
-            budget = 1500
+            budget = 1700
             files_codecs = ['ber']
         else:
             model = [(3, ALL_SEEDS, ['MeaningPreserved', 'ArrangementWellFormed'], 8),
                      (2, ALL_SEEDS, ['MeaningPreservedStep', 'EncodingPreserved'], 8)]
             emit_bfs = (2, ALL_SEEDS)
-            sim = ('num=120', 8)
-            budget = 16000
+            emit_workers = 4
+            sim = ('num=150', 8)
+            budget = 10000
             files_codecs = ['ber', 'uper', 'oer', 'xer']
         tds = os.environ.get('VERIF_C19_TDS', 'E,I,A').split(',')
-        # --- M: the invariants on the model (no emission)
-        for steps, seeds_, invs, workers in model:
-            out, res = pl.tlc_generate(run, 'Arrange', arrange_cfg(steps, 0, seeds_, tds, invs), 'none.ndjson',
-                                       workers=workers, timeout=3000,
-                                       what='Arrange BFS <=%d actions, invariants %s' % (steps, '+'.join(invs)))
-        # --- A: transitions for the harness: exhaustive near the seeds, simulated further out
-        edges, seeds = {}, {}
-        out, res = pl.tlc_generate(run, 'Arrange', arrange_cfg(emit_bfs[0], 99, emit_bfs[1], tds, ['Emit']),
-                                   'bfs.ndjson', workers=1, timeout=3000,
+        # --- M: the invariants on the model (no emission); A: transitions for the harness, exhaustive
+        # near the seeds and simulated further out.  The TLC runs are independent: run them side by side.
+        cap = int(os.environ.get('VERIF_TLC_WORKERS', '8'))      # throttle on a shared machine
+
+        def model_run(spec):
+            steps, seeds_, invs, workers = spec
+            workers = min(workers, cap)
+            return pl.tlc_generate(run, 'Arrange', arrange_cfg(steps, 0, seeds_, tds, invs),
+                                   'none%d.ndjson' % steps, workers=workers, timeout=3000,
+                                   what='Arrange BFS <=%d actions, invariants %s' % (steps, '+'.join(invs)))
+
+        def bfs_run(_):
+            return pl.tlc_generate(run, 'Arrange', arrange_cfg(emit_bfs[0], 99, emit_bfs[1], tds, ['Emit']),
+                                   'bfs.ndjson', workers=min(emit_workers, cap), timeout=3000,
                                    what='Arrange BFS <=%d actions, every transition emitted' % emit_bfs[0])
-        read_edges(out, edges, seeds)
-        n_bfs = len(edges)
-        out, res = pl.tlc_generate(run, 'Arrange', arrange_cfg(sim[1], 99, ALL_SEEDS, tds, ['Emit', 'MeaningPreserved'], view=False),
+
+        def sim_run(_):
+            return pl.tlc_generate(run, 'Arrange',
+                                   arrange_cfg(sim[1], 99, ALL_SEEDS, tds, ['Emit', 'MeaningPreserved'], view=False),
                                    'sim.ndjson', workers=1, simulate=sim[0], depth=sim[1] + 1, timeout=3000,
                                    what='Arrange simulate %s, <=%d actions' % sim)
-        read_edges(out, edges, seeds)
+
+        def mutant_run(name):
+            # anti-vacuity: with a side condition of Inline / Extract removed the invariant must fail
+            out, res = pl.tlc_generate(run, 'Arrange', arrange_cfg(1, 0, [2, 5], ['E', 'A'], ['MeaningPreserved'], mutation=name),
+                                       'mut-%s.ndjson' % name, workers=1, timeout=1200, check_ok=False,
+                                       what='Arrange with mutation %s (must violate MeaningPreserved)' % name)
+            return name, ('MeaningPreserved is violated' in res['error'])
+
+        jobs = [(bfs_run, None), (sim_run, None)] + [(model_run, m) for m in model] + [(mutant_run, m) for m in MODEL_MUTANTS]
+        with ThreadPoolExecutor(max_workers=len(jobs) if cap >= 8 else 1) as ex:
+            futs = [ex.submit(f, a) for f, a in jobs]
+            results = [f.result() for f in futs]
+        killed = dict(results[2 + len(model):])
+        run.notes['model_mutants_killed'] = killed
+        if not all(killed.values()):
+            raise pl.Machinery('model mutants not detected by MeaningPreserved: %s' % killed)
+        edges, seeds, stats = {}, {}, {'lines': 0, 'torn': 0}
+        read_edges(results[0][0], edges, seeds, stats)
+        n_bfs = len(edges)
+        read_edges(results[1][0], edges, seeds, stats)
+        run.notes['emitted_lines'] = stats
+        if stats['torn'] * 50 > stats['lines']:
+            raise pl.Machinery('too many torn lines in the generated transitions: %s' % stats)
+        edges = {k: e for k, e in edges.items() if e['seed'] in seeds}
         # which transitions are replayed: all of the exhaustive part, a seeded sample of the rest
         keys = sorted(edges)
         near = [k for k in keys if edges[k]['steps'] <= emit_bfs[0]]
@@ -155,7 +222,15 @@ def c19(tier, seed):
                                     'after': {'texts': co['texts']}, 'obs': co['obs']}
             shards.append(path)
         cfg = 'SPECIFICATION Spec\nPOSTCONDITION TraceAccepted\nCHECK_DEADLOCK FALSE\n'
-        reports = pl.validate(run, 'Trace_Arrange', cfg, shards, what='Trace_Arrange', heap='4g')
+        selftest = corrupted_trace(run, shards[0])
+        reports = pl.validate(run, 'Trace_Arrange', cfg, shards + [selftest], what='Trace_Arrange', heap='4g')
+        st = [r for r in reports if r['cid'].startswith('selftest-')]
+        reports = [r for r in reports if not r['cid'].startswith('selftest-')]
+        run.traces -= sum(1 for l in open(selftest) if l.strip())
+        bad = [o['check'] for r in st for o in r['other'] if o['verdict'] == 'reject']
+        run.notes['corrupted_trace_rejected'] = sorted(set(bad))
+        if not any(c.startswith('STEP') for c in bad) or 'DER' not in bad:
+            raise pl.Machinery('self-test: a trace with one flipped octet was accepted (%s)' % bad)
         pl.classify(run, reports, idx, 'C19')
         # accounting
         for (sd, aid), r in obs.items():
